@@ -34,8 +34,15 @@ func (u *UseCase) Set(ctx context.Context, key string, content io.Reader) error 
 
 	var (
 		minSize uint64
-		closer  io.Closer
+		closers []io.Closer
 	)
+	// the stream handed to the next attempt may still read from every file that ran
+	// out of space before: they are closed only when the whole write is over
+	defer func() {
+		for _, closer := range closers {
+			closer.Close()
+		}
+	}()
 	for dir, ok := range dirs.Iterate(u.randGen) {
 		if !ok {
 			return fs_db.ErrNoFreeSpace
@@ -50,11 +57,7 @@ func (u *UseCase) Set(ctx context.Context, key string, content io.Reader) error 
 		if err != nil {
 			var errNotEnoughSpace model.NotEnoughSpaceError
 			if errors.As(err, &errNotEnoughSpace) {
-				if closer != nil {
-					closer.Close()
-				}
-
-				closer = errNotEnoughSpace
+				closers = append(closers, errNotEnoughSpace)
 				content = errNotEnoughSpace.Reader()
 				minSize = dir.Free
 				continue
@@ -64,10 +67,6 @@ func (u *UseCase) Set(ctx context.Context, key string, content io.Reader) error 
 		}
 
 		break
-	}
-
-	if closer != nil {
-		closer.Close()
 	}
 
 	verifhook.At("set.afterContent")
